@@ -1,0 +1,11 @@
+//go:build verif
+
+package time
+
+import "github.com/ozanh/ugo"
+
+// verifGlobals: package-level variables of ugo that this package relies on
+// being initialised (never reassigned after init).
+func verifGlobals() bool {
+	return ugo.ErrWrongNumArguments != nil && ugo.ErrType != nil && ugo.Undefined != nil
+}
